@@ -279,6 +279,8 @@ def do_diagram(R, net_obj, recd, q):
     calls = recd.take()
     ev['calls'], fin = _calls_proj(calls)
     ev['finite'] = fin
+    ev['src_multi'] = len(R.comp[q['s'] - 1]) > 1
+    ev['nf_source'] = ev['raised'].startswith('NodeNotFound: source node')
     if labels is not None:
         ev['finite'] = fin and all(core.finite(v) for _, v in labels)
         ev['labels'] = [[i, to_dec(v) if core.finite(v) else [0, 0]] for i, v in labels]
@@ -321,16 +323,11 @@ def _exec_path(case):
                        explicit_true=case.get('explicit_true', False))
     if net_obj is None:
         return events, [('Raises', {'op': 'build', 'raised': events[-1]['raised']})]
-    ev = events[-1]
-    got_nodes = sorted(n[0] for n in ev['nodes'])
-    got_edges = sorted(sorted(e) for e in ev['edges'])
-    got_ts = sorted(n[0] for n in ev['nodes'] if n[1])
-    if got_nodes != sorted(case['nodes']) or got_edges != sorted(sorted(e) for e in case['edges']) \
-            or got_ts != sorted(case['ts']):
-        mism.append(('ReplayGraph', {'op': 'build', 'inc': case['inc'],
-                                     'expected': {'nodes': case['nodes'], 'edges': case['edges'], 'ts': case['ts']},
-                                     'got': {'nodes': got_nodes, 'edges': got_edges, 'ts': got_ts}}))
-        return events, mism                       # the queries below presuppose the graph
+    gm = _graph_mismatch(case, events[-1])
+    if gm:
+        mism.append(gm)
+        if gm[0] == 'ReplayGraph':
+            return events, mism                   # the queries below presuppose the graph
     recd = Recorder(R, net_obj)
     for q in case['qs']:
         qq = dict(q, units='eV', T=298.15)
@@ -342,11 +339,44 @@ def _exec_path(case):
         got = [p for p, _ in calls]
         if e['raised'] and not (e['ev'] == 'diagram' and e['stage'] == 'draw'):
             continue                               # judged by the trace specification (Raises)
-        if sorted(got) != sorted(q['paths']):
-            mism.append(('ReplayPaths', {'op': e['ev'], 'query': {k: q[k] for k in ('s', 't', 'c')},
-                                         'cutoff_given': bool(q['c']), 'inc': case['inc'],
-                                         'expected': sorted(q['paths']), 'got': sorted(got)}))
+        if gm:
+            continue                               # the graph is not the one TLC enumerated on
+        pm = _paths_mismatch(q, got, {'op': e['ev'], 'query': {k: q[k] for k in ('s', 't', 'c')},
+                                      'cutoff_given': bool(q['c']), 'inc': case['inc']})
+        if pm:
+            mism.append(pm)
     return events, mism
+
+
+def _graph_mismatch(case, ev):
+    """None, or ('ReplayGraph', ...), or ('ReplayGraph_KnownTSKept', ...) when include_TS = False
+    was asked for and the graph is exactly TLC's include_TS = True graph (finding X02-F4)"""
+    def norm(nodes, edges):
+        return sorted(nodes), sorted(sorted(e) for e in edges)
+    got = norm([n[0] for n in ev['nodes']], ev['edges'])
+    got_ts = sorted(n[0] for n in ev['nodes'] if n[1])
+    want_ts = sorted({x[2] for x in case['rx'] if x[2]} & set(got[0]))
+    if got == norm(case['nodes'], case['edges']) and got_ts == want_ts:
+        return None
+    det = {'op': 'build', 'inc': case['inc'],
+           'expected': {'nodes': case['nodes'], 'edges': case['edges']},
+           'got': {'nodes': got[0], 'edges': got[1], 'ts': got_ts}}
+    if not case['inc'] and got == norm(case['nodes_ts'], case['edges_ts']) and got_ts == want_ts:
+        return ('ReplayGraph_KnownTSKept', det)
+    return ('ReplayGraph', det)
+
+
+def _paths_mismatch(q, got, info):
+    """None, ('ReplayPaths', ...), or ('ReplayPaths_KnownEdgeCount', ...) when a cutoff was given and
+    the enumerated set is exactly TLC's set of simple paths with <= cutoff EDGES (finding X02-F5)"""
+    want = sorted(list(p['p']) if isinstance(p, dict) else list(p) for p in q['paths'])
+    got = sorted(list(p) for p in got)
+    if got == want:
+        return None
+    det = dict(info, expected=want, got=got)
+    if q['c'] and got == sorted(list(p) for p in q.get('paths_e', [])):
+        return ('ReplayPaths_KnownEdgeCount', det)
+    return ('ReplayPaths', det)
 
 
 def _exec_span(case):
@@ -355,17 +385,23 @@ def _exec_span(case):
     R, net_obj = _make(_int_net(case['rx'], en=case['en']), case['inc'], events)
     if net_obj is None:
         return events, [('Raises', {'op': 'build', 'raised': events[-1]['raised']})]
+    gm = _graph_mismatch(case, events[-1])
+    if gm:
+        mism.append(gm)
+        if gm[0] == 'ReplayGraph':
+            return events, mism
     recd = Recorder(R, net_obj)
     for q in case['qs']:
         e, calls, out = do_minspan(R, net_obj, recd, dict(q, units='eV', T=case.get('T', 298.15)))
         events.append(e)
-        if e['raised']:
+        if e['raised'] or gm:
             continue
         acc = {tuple(p['p']): p['spans'] for p in q['paths']}
         info = {'op': 'minspan', 'query': {k: q[k] for k in ('s', 't', 'c')}, 'cutoff_given': bool(q['c']),
                 'inc': case['inc']}
-        if sorted(tuple(p) for p, _ in calls) != sorted(acc):
-            mism.append(('ReplayPaths', dict(info, expected=sorted(acc), got=sorted(p for p, _ in calls))))
+        pm = _paths_mismatch(q, [p for p, _ in calls], info)
+        if pm:
+            mism.append(pm)
             continue
         for p, v in calls:
             if not core.finite(v) or abs(v - round(v)) > 1e-6 or round(v) not in acc[tuple(p)]:
@@ -572,7 +608,8 @@ def _tlc_cases(ctx, rnd):
                                     and rnd.random() < (0.1 if ctx.quick else 0.15)) else 'minspan')
               for q in qs]
         cases.append({'kind': 'path', 'rx': c['rx'], 'inc': c['inc'], 'nodes': c['nodes'],
-                      'edges': c['edges'], 'ts': c['ts'], 'qs': qs,
+                      'edges': c['edges'], 'nodes_ts': c['nodes_ts'], 'edges_ts': c['edges_ts'],
+                      'ts': c['ts'], 'qs': qs,
                       'explicit_true': rnd.random() < 0.3,
                       'from_string': [rnd.random() < 0.3 for _ in c['rx']]})
     # span cases: grouped per (network, include_TS, energies)
@@ -585,22 +622,24 @@ def _tlc_cases(ctx, rnd):
     def interesting(c):
         return len(c['mins']) > 1 or any(len(p['spans']) > 1 for p in c['paths']) or len(c['paths']) > 2
     if ctx.quick:
-        keep = [k for k in keys if any(interesting(c) for c in groups[k])][:500]
-        keep += [k for k in keys if k not in set(keep)][:500]
+        keep = [k for k in keys if any(interesting(c) for c in groups[k])][:400]
+        keep += [k for k in keys if k not in set(keep)][:300]
     else:
         keep = keys
     for k in keep:
         g = groups[k]
         cases.append({'kind': 'span', 'rx': g[0]['rx'], 'inc': g[0]['inc'], 'en': g[0]['en'],
-                      'T': rnd.choice(T_CHOICES),
+                      'nodes': g[0]['nodes'], 'edges': g[0]['edges'], 'nodes_ts': g[0]['nodes_ts'],
+                      'edges_ts': g[0]['edges_ts'], 'T': rnd.choice(T_CHOICES),
                       'qs': [{'s': c['s'], 't': c['t'], 'c': c['c'], 'paths': c['paths'], 'mins': c['mins'],
+                              'paths_e': c['paths_e'],
                               'tlist': rnd.random() < 0.3} for c in (g[:6] if ctx.quick else g)]})
     return cases
 
 
 def _random_cases(ctx, rnd):
     return [{'kind': 'random', 'seed': rnd.randrange(1 << 30), 'nq': rnd.randint(2, 5),
-             'p_diagram': 0.3} for _ in range(ctx.pick(260, 5000))] + [{'kind': 'bep'}]
+             'p_diagram': 0.3} for _ in range(ctx.pick(220, 5000))] + [{'kind': 'bep'}]
 
 
 def _signature(case):
@@ -621,6 +660,8 @@ def _tags(case, ev, detail=None):
         t['stage'] = ev.get('stage', '')
         t['exc'] = ev.get('exc', '')
         t['site'] = ev.get('site', '')
+        t['src_multi'] = ev.get('src_multi', False)
+        t['nf_source'] = ev.get('nf_source', False)
     if ev and ev.get('ev') == 'build':
         t['inc'] = ev['inc']
     if detail:
@@ -701,7 +742,8 @@ def run(ctx):
             found.append((clause, case, _tags(case, None, detail), detail))
         traces.append((tid, events))
         if tid % 397 == 0:
-            ctx.sample({k: v for k, v in case.items() if k not in ('qs', 'nodes', 'edges')})
+            ctx.sample({k: v for k, v in case.items()
+                        if k not in ('qs', 'nodes', 'edges', 'nodes_ts', 'edges_ts')})
     ctx.coverage['exercised'] = cov
     if ctx.replay_case is None and min(cov.values()) == 0:
         raise core.MachineryError('vacuous run: %r' % (cov,))
